@@ -303,7 +303,9 @@ def c13_violations(lines, sessions=None):
                 if in_ms or stack or in_cp:
                     bad("C13.nesting", "beforeProcessingEvent inside an open bracket")
                 if r[SEQ] in ev_from_ext:
-                    if saw_anything and n_stb_since_ext != 1:
+                    if stable_pending and saw_anything:
+                        bad("C13.stable-once", "external event %s processed although the macrostep before it was never closed by a stable-configuration notice" % r[5]["name"])
+                    elif saw_anything and n_stb_since_ext < 1:
                         bad("C13.stable-once", "external event %s processed after %d stable-configuration notices since the previous macrostep began" % (r[5]["name"], n_stb_since_ext))
                     n_stb_since_ext = 0
                 stable_pending = True
